@@ -256,10 +256,16 @@ def features(case, ref):
                 pass
             lastw[x] = k
     f["waw"], f["war"] = waw, war
+    # some register is written by two different instructions of the text (one may be on a wrong path)
+    wcount = {}
+    for _, w, _ in ins:
+        for x in set(w):
+            wcount[x] = wcount.get(x, 0) + 1
+    f["static_waw"] = any(n >= 2 for n in wcount.values())
     # same-line conflicts: a store and another access to one 64-byte line
     lines_st = {int(a[1:].split("w")[0]) // 64 for a in accs if a[0] == "S"}
     lines_all = [int(a[1:].split("w")[0]) // 64 for a in accs]
-    f["line_conflict"] = any(lines_all.count(l) > 1 for l in lines_st)
+    f["line_conflict"] = any(lines_all.count(l) > 1 for l in lines_st) or len(accs) >= 3000   # the driver reports at most 3000 accesses
     lines_ld = {int(a[1:].split("w")[0]) // 64 for a in accs if a[0] == "L"}
     f["ls_line_conflict"] = bool(lines_st & lines_ld) or len(accs) >= 3000   # the driver reports at most 3000 accesses
     # a load/store instruction of the text that the reference run never executes can still run speculatively
